@@ -34,6 +34,7 @@ var c09Kinds = []string{"抛出异常", "抛出错", "取样越界", "解析JSON
 
 // c09Explicit: raised by a 抛出 statement (the message is the program's own)
 func c09Explicit(kind int) bool { return kind <= 1 || kind >= 7 }
+
 var c09Sites = []string{"语句", "如果", "每当", "遍历", "构造", "拦截内", "遍历字典", "调用在遍历内", "再如条件"}
 
 func c09ClassOf(kind int) string {
